@@ -150,6 +150,35 @@ CLAIMED = {
             "table in harness/classes.py (nested, indexed incl. index >= 10, prefixed, estimator-valued, string keys).",
             "valid configurations = the table of alternatives; values compared as canonical tokens; QuantileMLPRegressor "
             "is not constructible here (version drift)."),
+    "C02": ("DESIGN 4/C02",
+            "TLA+ spec Lifecycle (fit as Save / Overwrite / Inner ok|raise / Restore; negative run without restore on raise) + "
+            "LifecycleTrace: histories of failing and successful fits, predictions and scores on every class, validated at "
+            "every return",
+            "TLC checks on the reference model that only set_params changes the parameters for every history of failing "
+            "and successful fits; for every class with a working fit the trace specification requires, at the return of "
+            "every call (normal or exceptional), the same canonical get_params view, unchanged byte fingerprints of X, y "
+            "and sample_weight, `fit(...) is obj`, and - through the output memo - that a model fitted after failures "
+            "equals a fresh clone fitted on the same data. Failures: invalid inputs per class and inner estimators "
+            "raising on their k-th fit.",
+            "invalid inputs = per-class list; a call that raises where the scenario hoped for success only shortens the "
+            "history (the property does not promise success)."),
+    "C03": ("DESIGN 4/C03",
+            "TLA+ spec Lifecycle (model signature <parameters, last data, seed>; negative run with a stale cache) + "
+            "LifecycleTrace with the output memo: refit histories on every class",
+            "Every class is fitted on A, used, refitted on B (other size / dimension / label set) and compared with a "
+            "fresh clone fitted on B and with a third fit under the same seed: predictions and every numeric fitted "
+            "attribute enter the specification's memo keyed by the signature, so anything an earlier fit leaks into a "
+            "later one, or any dependence on the global seed where an integer random_state is documented as sufficient, "
+            "is a clash.",
+            "seed kind per class from the table in harness/classes.py; outputs compared as canonical ids (1e-9)."),
+    "C04": ("DESIGN 4/C04",
+            "TLA+ spec Lifecycle + LifecycleTrace with the output memo keyed by ROW: batches, permutations, sub-batches, "
+            "single rows, repeated calls, pickle and clone-with-fitted copies of every row-wise class",
+            "For every fitted row-wise predictor / transformer and every method, the output of a row is recorded in the "
+            "memo under <model signature, method, row>: the whole batch, a permutation, a sub-batch, single rows, a "
+            "repeated call, the unpickled model and the clone_with_fitted_parameters copy must all agree.",
+            "balanced predictions of ConstraintKMeans are the documented exception and not exercised; a refusal of "
+            "clone_with_fitted_parameters (RuntimeError) is not a violation."),
 }
 
 PENDING_REASON = "check not built yet in this round (planned: see DESIGN.md section 4); not claimed until it runs"
